@@ -22,7 +22,8 @@ def run(ck):
         'type patterns (match arms incl. guards, TryFrom conversion targets) of the off-circuit implementation equals that of the in-circuit one; '
         '(R4) untrusted program constants (decoded enum payloads) reach no panic sink (taint); (R5) every chip accessor that panics when the chip is '
         'disabled is used only where used_chips enables the chip; (R6) public-input types are recorded in the closure that publishes; '
-        '(R7) the binary program encoding is read with the type it is written with.  Value-level agreement of the two interpreters is not decided.')
+        '(R7) the binary program encoding is read with the type it is written with; (R8) partial big-integer operations are guarded; (R9) per-element checks of the '
+        'in-circuit operations keep their iteration domain (no added take/skip/filter) and declared bounds reach their checks by value.  Value-level agreement of the two interpreters is not decided.')
     r1_variants(ck, w)
     r2_arity(ck, w)
     r3_domains(ck, w)
